@@ -1,5 +1,208 @@
-(* C12 — property theorems (placeholder until the model is built). *)
-From WI Require Import Lib.Base Lib.Info Model.PgpKey Proofs.PgpKey.
-Theorem C12_placeholder : True.
-Proof. exact I. Qed.
-Print Assumptions C12_placeholder.
+(* C12 — PGP fingerprint, key ID, algorithm, usage and dates are exact.
+   Only statements; proofs are in Proofs/PgpKey.v and Proofs/PgpEntity.v.
+
+   [fixed] is the repaired code, [legacy] the code as found; H is SHA-1 and stays abstract;
+   [ecok] (elliptic.Unmarshal succeeded) stays abstract too. *)
+From WI Require Import Lib.Base Lib.Info Lib.Time gen.PgpTables Model.PgpKey Model.PgpEntity Proofs.PgpKey Proofs.PgpEntity.
+Open Scope N_scope.
+
+(* T1: the algorithm-name table, the curve OIDs, the hash ids, the signing algorithms, the key-flag
+   bits and the signature types regenerated from the running code are the RFC 4880 / 6637 / 4880bis ones *)
+Theorem C12_tables_ok : tables_ok = true.
+Proof. exact tables_ok_now. Qed.
+Print Assumptions C12_tables_ok.
+
+(* reading an MPI and writing it back gives exactly the octets that were consumed — bit count as
+   declared, content octets untouched, leading zero bits and octets included *)
+Theorem C12_mpi_exact : forall bs m rest, bytes_ok bs = true ->
+  mpi_read bs = Ok (m, rest) -> mpi_write m ++ rest = bs.
+Proof. exact mpi_exact. Qed.
+Print Assumptions C12_mpi_exact.
+
+(* ... and the same for a whole v4 public-key body, for every algorithm *)
+Theorem C12_reserialise_exact : forall ecok body k rest, bytes_ok body = true ->
+  parse_public_key fixed ecok body = Ok (k, rest) -> key_body k ++ rest = body.
+Proof. intros ecok body k rest. apply parse_public_key_exact. reflexivity. Qed.
+Print Assumptions C12_reserialise_exact.
+
+(* the 2-octet length in the hashed form never wraps *)
+Theorem C12_key_body_short : forall c ecok body k rest, bytes_ok body = true ->
+  parse_public_key c ecok body = Ok (k, rest) -> lenN (key_body k) < 65536.
+Proof. exact parsed_key_body_short. Qed.
+Print Assumptions C12_key_body_short.
+
+(* RFC 4880 12.2: the fingerprint is the hash of 0x99, the 2-octet length and the public-key
+   packet body exactly as it appears in the input *)
+Theorem C12_fingerprint : forall ecok H body k, bytes_ok body = true ->
+  parse_public_key fixed ecok body = Ok (k, []) ->
+  key_hash_input k = 153 :: be16 (lenN body) ++ body /\
+  fingerprint H k = H (153 :: be16 (lenN body) ++ body).
+Proof. intros ecok H body k. apply fingerprint_exact. reflexivity. Qed.
+Print Assumptions C12_fingerprint.
+
+(* ... and that is what the description shows, with the key ID and the algorithm name *)
+Theorem C12_fingerprint_displayed : forall ecok H body k, bytes_ok body = true ->
+  parse_public_key fixed ecok body = Ok (k, []) ->
+  let fp := H (153 :: be16 (lenN body) ++ body) in
+  In (bs "Fingerprint", hex_of true fp) (describe_key H k) /\
+  In (bs "Key ID", hex_of true (take 8 (drop 12 fp))) (describe_key H k) /\
+  In (bs "Algorithm", algo_name (pk_algo k)) (describe_key H k).
+Proof. intros ecok H body k. apply displayed_fingerprint. reflexivity. Qed.
+Print Assumptions C12_fingerprint_displayed.
+
+(* the key ID is the low 64 bits of the 20-octet fingerprint, printed as 16 upper-case hex digits *)
+Theorem C12_key_id : forall fp, length fp = 20%nat -> bytes_ok fp = true ->
+  key_id_of_fp fp = be_to_N fp mod 2 ^ 64 /\
+  key_id_string_of_fp fp = hex_of true (drop 12 fp) /\
+  length (key_id_string_of_fp fp) = 16%nat.
+Proof. exact key_id_low64. Qed.
+Print Assumptions C12_key_id.
+
+(* every algorithm a parsed key can have is shown under its RFC name *)
+Theorem C12_algorithm_named : forall c ecok body k rest, parse_public_key c ecok body = Ok (k, rest) ->
+  In (pk_algo k, algo_name (pk_algo k)) spec_algo_names.
+Proof. exact algo_named. Qed.
+Print Assumptions C12_algorithm_named.
+
+(* Size is shown for RSA, DSA and ElGamal keys only and is the declared bit count of the modulus /
+   prime, which for a well-formed MPI (RFC 4880 3.2) is the bit length of the integer *)
+Theorem C12_size : forall H k,
+  match modulus k with
+  | Some n =>
+      In (bs "Size", dec_of_N (m_bits n) ++ bs " bits") (describe_key H k) /\
+      (mpi_wellformed n = true -> m_bits n = bitlen (mpi_value n))
+  | None => forall v, ~ In (bs "Size", v) (describe_key H k)
+  end.
+Proof. exact size_attr. Qed.
+Print Assumptions C12_size.
+
+(* the description of a PGP key: attributes of the first key packet of the stream, then the
+   identities sorted by name, then the subkeys in packet order *)
+Theorem C12_description_shape : forall c P private stream i,
+  pgp_key c P private stream = Ok i ->
+  exists e, read_entity c P (events_of c P stream) = Ok e /\
+    first_key (events_of c P stream) = Some (e_primary e) /\
+    i_desc i = (if private then bs "GPG/PGP private key" else bs "GPG/PGP public key") /\
+    i_attrs i = describe_key (p_H P) (e_primary e) /\
+    i_children i = map (identity_info c (e_primary e)) (sort_ids (e_ids e)) ++ map (subkey_info c (p_H P)) (e_subkeys e).
+Proof. exact description_shape. Qed.
+Print Assumptions C12_description_shape.
+
+(* a hashed key-flags subpacket with first octet f contributes exactly the defined bits of f *)
+Theorem C12_flags_subpacket : forall emb st f more rest, 2 + lenN more < 192 ->
+  parse_subpacket emb true st ((2 + lenN more) :: 27 :: f :: more ++ rest) =
+    Ok (mkspst (sp_created st) (sp_keylife st) (sp_issuer st) true
+               (N.lor (sp_flags st) (N.land f known_flag_bits)) (sp_emb st), rest).
+Proof. exact flags_subpacket. Qed.
+Print Assumptions C12_flags_subpacket.
+
+(* usage: all 2^8 values of the key-flags octet (finite, by computation) *)
+Theorem C12_usage : forall f, f < 256 -> usage_string (flags_of_octet f) = spec_usage f.
+Proof. exact usage_exact. Qed.
+Print Assumptions C12_usage.
+
+(* dates of one signature: Created is the creation time of the signature (shown for an identity:
+   its self-signature, as GnuPG's uid record); the expiry is the creation time of the KEY plus the
+   lifetime; an absent subpacket and the value 0 mean never *)
+Theorem C12_dates : forall s key_created,
+  describe_sig fixed s key_created =
+    [(bs "Usage", usage_string (sc_flags s));
+     (bs "Created", fmt_date_utc (sc_created s));
+     (bs "Expires", match sc_keylife s with
+                    | None => bs "never"
+                    | Some 0 => bs "never"
+                    | Some l => fmt_date_utc (key_created + l)
+                    end)].
+Proof. exact dates_exact. Qed.
+Print Assumptions C12_dates.
+
+(* an identity shows exactly the three attributes of its verified self-signature, the expiry
+   counted from the creation time of the primary key *)
+Theorem C12_identity_attributes : forall primary i,
+  i_attrs (identity_info fixed primary i) = describe_sig fixed (id_self i) (pk_created primary).
+Proof. exact identity_attrs_exact. Qed.
+Print Assumptions C12_identity_attributes.
+
+(* a subkey shows usage and lifetime of its binding signature, creation date and expiry counted
+   from the creation time in the subkey packet (as `gpg --list-keys` does) *)
+Theorem C12_subkey_dates : forall s,
+  subkey_sig_attrs fixed s =
+    [(bs "Usage", usage_string (sc_flags (sk_sig s)));
+     (bs "Created", fmt_date_utc (pk_created (sk_key s)));
+     (bs "Expires", match sc_keylife (sk_sig s) with
+                    | None => bs "never"
+                    | Some 0 => bs "never"
+                    | Some l => fmt_date_utc (pk_created (sk_key s) + l)
+                    end)].
+Proof. exact subkey_dates_exact. Qed.
+Print Assumptions C12_subkey_dates.
+
+(* time.Duration(lifetime) * time.Second cannot overflow for 32-bit values *)
+Theorem C12_lifetime_no_overflow : forall c l, c < 2 ^ 32 -> l < 2 ^ 32 ->
+  l * 1000000000 < 2 ^ 63 /\ c + l < 2 ^ 33.
+Proof. exact lifetime_no_overflow. Qed.
+Print Assumptions C12_lifetime_no_overflow.
+
+(* the repaired code cannot panic on any input, whatever the library calls answer (as long as they
+   do not panic themselves): the positive counterpart of F7 and F8 *)
+Theorem C12_no_panic : forall c P private stream, fix7 c = true -> fix8 c = true -> params_np P ->
+  is_panic (pgp_key c P private stream) = false.
+Proof. exact pgp_key_no_panic. Qed.
+Print Assumptions C12_no_panic.
+
+(* ---- the code as found refutes the property (all repaired; witnesses are in the corpus) ---- *)
+
+(* F7: an EdDSA key with an empty point panics in the parser; a 21-octet point reaches ed25519.Verify *)
+Theorem C12_F7_refuted :
+  is_panic (parse_public_key legacy no_ec f7_body) = true /\
+  parse_public_key fixed no_ec f7_body = Err "unsupported point length" /\
+  (forall c P dg, is_panic (crypto_check c P f7_short_key f29_sig dg) = true).
+Proof. split; [exact f7_legacy_panics | split; [exact f7_fixed_rejects | exact f7_verify_panics]]. Qed.
+Print Assumptions C12_F7_refuted.
+
+(* F8: the secret part of an unprotected ECDH key *)
+Theorem C12_F8_refuted : forall P,
+  parse_secret_tail legacy P f8_key false [0; 0; 8; 1; 0; 1] = Panic "impossible" /\
+  parse_secret_tail fixed P f8_key false [0; 0; 8; 1; 0; 1] = Ok tt.
+Proof. intros P. split; [apply f8_legacy_panics | apply f8_fixed_parses]. Qed.
+Print Assumptions C12_F8_refuted.
+
+(* F28: lifetime 0 *)
+Theorem C12_F28_refuted :
+  describe_sig legacy f28_sig 1000000000 =
+    [(bs "Usage", bs "sign, certify"); (bs "Created", bs "2001-09-09"); (bs "Expires", bs "2001-09-09")] /\
+  describe_sig fixed f28_sig 1000000000 =
+    [(bs "Usage", bs "sign, certify"); (bs "Created", bs "2001-09-09"); (bs "Expires", bs "never")].
+Proof. split; [exact f28_legacy | exact f28_fixed]. Qed.
+Print Assumptions C12_F28_refuted.
+
+(* F29: an EdDSA signature whose R lost its leading zero octet is rejected without asking the
+   primitive; the repaired code asks it about the 64 octets 00 R S *)
+Theorem C12_F29_refuted : forall P dg,
+  crypto_check legacy P f29_key f29_sig dg = Ok false /\
+  crypto_check fixed P f29_key f29_sig dg = p_prim P f29_key 8 dg [0 :: repeat 9 31 ++ repeat 9 32].
+Proof. intros P dg. split; [apply f29_legacy_rejects | apply f29_fixed_asks_primitive]. Qed.
+Print Assumptions C12_F29_refuted.
+
+(* F37: the hashed form of an ECDH key with a 4-octet KDF field was not the input *)
+Theorem C12_F37_refuted : exists k, parse_public_key legacy no_ec f37_body = Ok (k, []) /\
+  key_hash_input k <> 153 :: be16 (lenN f37_body) ++ f37_body.
+Proof. exact f37_legacy. Qed.
+Print Assumptions C12_F37_refuted.
+
+(* F38: unverified signatures of other keys contributed Usage / Created / Expires lines to an identity *)
+Theorem C12_F38_refuted :
+  map fst (i_attrs (identity_info legacy ex_key f38_identity)) =
+    [bs "Usage"; bs "Created"; bs "Expires"; bs "Usage"; bs "Created"; bs "Expires"] /\
+  map fst (i_attrs (identity_info fixed ex_key f38_identity)) = [bs "Usage"; bs "Created"; bs "Expires"].
+Proof. split; [exact f38_legacy | exact f38_fixed]. Qed.
+Print Assumptions C12_F38_refuted.
+
+(* F39: a subkey created on 2020-01-01 and re-bound on 2020-06-01 was shown as created on 2020-06-01 *)
+Theorem C12_F39_refuted :
+  subkey_sig_attrs legacy f39_subkey =
+    [(bs "Usage", bs "encrypt communications, encrypt storage"); (bs "Created", bs "2020-06-01"); (bs "Expires", bs "2023-06-01")] /\
+  subkey_sig_attrs fixed f39_subkey =
+    [(bs "Usage", bs "encrypt communications, encrypt storage"); (bs "Created", bs "2020-01-01"); (bs "Expires", bs "2023-06-01")].
+Proof. split; [exact f39_legacy | exact f39_fixed]. Qed.
+Print Assumptions C12_F39_refuted.
